@@ -13,6 +13,8 @@ I4 global-driven    unseeded model: output and post-call global state equal the 
 I5 datasets         exactly `size` rows, deterministic in (size, seed), global state untouched
 I6 after a fault    I1 still holds and the next unfaulted call still agrees with a twin that
                     received the same fault
+I7 fit              fitting a model that was seeded at construction leaves its stored
+                    generator exactly where the seed put it
 """
 
 import copy
@@ -91,6 +93,9 @@ def _model_spec(rng, mid, tier, force_cls=None):
             else:
                 spec['ctor']['parametric'] = {'__enum__': ['copulas.univariate.base',
                                                            'ParametricType', 'PARAMETRIC']}
+            if rng.random() < 0.35:
+                # candidate selection on a subsample (drawn while fitting)
+                spec['ctor']['selection_sample_size'] = rng.choice([10, 25, 1000])
     elif kind == 'biv':
         tau = rng.choice([0.15, 0.3, 0.5, 0.7])
         if cls.endswith('Frank') and rng.random() < 0.4:
@@ -150,6 +155,10 @@ def generate(rng, tier, idx):
             n = rng.choice([1, 1, 2, 3, 5, 8])
             if kinds[m] == 'vine':
                 n = min(n, 3)
+            elif rng.random() < 0.1:
+                # sizes whose draws fill whole blocks of the generator (624 words = 312
+                # doubles): the position field of the state is then the same before and after
+                n = rng.choice([156, 312, 624])
             if rng.random() < 0.04:
                 n = -1
             op = {'op': 'sample', 'm': m, 'n': n}
@@ -412,7 +421,17 @@ def _setup(w):
         data = zoo.gen_data(spec['data'])
         with sterile(spec['fit_state']):
             m = zoo.build_model(spec, shared_live)
+            seeded_at_birth = _model_state(m)
             out = outcome(zoo.fit_model, m, spec, data)
+        # I7 - the stream is a function of (fitted parameters, seed, sequence of SAMPLE calls):
+        # a fit is none of these, so it must leave the stored generator where the seed put it
+        after_fit = _model_state(m)
+        if seeded_at_birth is not None and (
+                after_fit is None or not states_equal(seeded_at_birth, after_fit)):
+            w.ctx.violate('I7_fit_leaves_the_model_stream_untouched', _subject(m),
+                          'the generator stored from the constructor seed was %s by fit()'
+                          % ('dropped' if after_fit is None else 'advanced'),
+                          seed_kind=(spec.get('seed') or {}).get('kind', 'none'))
         t = copy.deepcopy(m)
         w.live[mid], w.twin[mid] = m, t
         const = False
